@@ -126,11 +126,9 @@ func runProperty(prop, tier, only string, seed, workers int, verbose, noReplay b
 	}
 	known := loadKnown()
 	var propKnown []gosym.KnownFinding
-	for _, k := range known {
-		if k.Property == prop {
-			propKnown = append(propKnown, k)
-		}
-	}
+	// findings are matched by harness/site, not by property: a harness registered under two
+	// properties must not turn a known finding of one into an alarm of the other
+	propKnown = append(propKnown, known...)
 	ov, ovFiles, err := buildOverlay()
 	if err != nil {
 		fmt.Fprintln(os.Stderr, "overlay:", err)
